@@ -70,7 +70,7 @@ func (sr *semRef) canProduce(seq []string) int {
 func init() {
 	harness.Register(&harness.Check{
 		ID: "C04", Level: "model_checking",
-		Rule: mcRule + "; here a case is a closed driver/example program that the reference typechecker accepts, explored in all three modes; the reference small-step semantics R-sem (ref/sem.go: axioms are messages, explicit duplication/drop, all interleavings explored with memoisation on canonical configurations) yields the set of admitted printed multisets (a singleton for contraction-free programs); oracle: for EVERY explored execution of the implementation the printed multiset is in that set, and the printed sequence is producible by R-sem (guided search); traces_validated_against_impl counts these executions; model_states = reference configurations explored",
+		Rule: mcRule + "; here a case is a closed driver/example program that the reference typechecker accepts, explored in all three modes (corpus/example programs also with a per-step delay larger than the heartbeat timeout, default schedule); the reference small-step semantics R-sem (ref/sem.go: axioms are messages, explicit duplication/drop, all interleavings explored with memoisation on canonical configurations) yields the set of admitted printed multisets (a singleton for contraction-free programs); oracle: for EVERY explored execution of the implementation the printed multiset is in that set, and the printed sequence is producible by R-sem (guided search); traces_validated_against_impl counts these executions; model_states = reference configurations explored",
 		Assumptions: append([]string{"R-sem is hand-written from the SAX rules; its consistency is cross-checked (singleton for contraction-free programs; deterministic run = exhaustive result)"}, mcAssumptions...),
 		Cases:       func(c *harness.Ctx) int { return len(basePrograms(c)) },
 		Run: func(c *harness.Ctx, idx int, r *harness.Rec) {
@@ -91,7 +91,13 @@ func init() {
 			r.Add("programs_with_reference", 1)
 			p := Prog{Name: b.Name, Text: text}
 			reported := map[string]bool{}
-			for _, cfg := range []explore.Config{{Mode: 0}, {Mode: 1}, {Mode: 2}} {
+			cfgs := []explore.Config{{Mode: 0}, {Mode: 1}, {Mode: 2}}
+			if !strings.HasPrefix(b.Name, "gen") {
+				// slowed-down execution (every step sleeps longer than the heartbeat timeout, as the web
+				// server's defaults do); virtual time makes this deterministic
+				cfgs = append(cfgs, explore.Config{Mode: 0, DelayMS: 120}, explore.Config{Mode: 1, DelayMS: 120})
+			}
+			for _, cfg := range cfgs {
 				cfg := cfg
 				res := exploreProgram(c, p, cfg, r, func(ex *explore.Exec) bool {
 					if len(ex.Res.Panics) > 0 || ex.Res.Err != "" || !ex.Returned {
